@@ -384,10 +384,11 @@ class _CenterManifoldMapDynamicsService(_MapDynamicsServiceBase):
                     "section_coord": section_coord,
                 }
             )
-            self.apply_center_manifold_map(payload, section_coord=section_coord)
             return payload
 
         payload = self.get_or_create(cache_key, _factory)
+        # Recorded outside the memoised factory so that a cache hit makes this section the current one too.
+        self.apply_center_manifold_map(payload, section_coord=section_coord)
         return CenterManifoldMapResults(
             payload.points,
             payload.states,
@@ -703,16 +704,18 @@ class _SynodicMapDynamicsService(_MapDynamicsServiceBase):
                     "labels": result.labels,
                 }
             )
-            self.apply_synodic_map(
-                payload,
-                section_axis=section_axis,
-                section_offset=section_offset,
-                plane_coords=plane_coords,
-                direction=direction,
-            )
             return payload
 
-        return self.get_or_create(cache_key, _factory)
+        payload = self.get_or_create(cache_key, _factory)
+        # Recorded outside the memoised factory so that a cache hit makes this section the current one too.
+        self.apply_synodic_map(
+            payload,
+            section_axis=section_axis,
+            section_offset=section_offset,
+            plane_coords=plane_coords,
+            direction=direction,
+        )
+        return payload
 
     def _build_generator(self) -> SynodicMapPipeline:
         """Build the generator."""
